@@ -11,9 +11,14 @@ CLI_S = int(os.environ.get('PYVC_CLI_S', '30'))
 SCRATCH = os.environ.get('VERIF_SCRATCH', '/var/tmp')
 
 
-def to_smt2(ob):
+def to_smt2(ob, ground=False):
+    """ground=True: only the quantifier-free hypotheses (a weaker query whose models are *candidates* that must be
+    confirmed by native replay before they count)"""
+    from .core import has_quant
     s = z3.Solver()
     for h in ob.hyps:
+        if ground and has_quant(h):
+            continue
         s.add(h)
     s.add(z3.Not(ob.goal))
     for label, term in getattr(ob, 'probes', {}).items():
@@ -56,7 +61,8 @@ def run_cli(cmd, text, timeout):
 
 
 def solve_one(args):
-    idx, text, tier = args
+    idx, text, tier = args[:3]
+    ground = args[3] if len(args) > 3 else None
     t0 = time.time()
     log = []
     if tier == 'cover':
@@ -93,6 +99,18 @@ def solve_one(args):
             return idx, 'unsat', name, time.time() - t0, None, log
         if ans == 'sat':
             return idx, 'sat', name, time.time() - t0, None, log
+    # no verdict: look for a candidate counterexample of the quantifier-free weakening (counts only if replay confirms it)
+    if ground:
+        try:
+            s = z3.Solver()
+            s.set('timeout', Z3_MS)
+            s.from_string(ground)
+            r = s.check()
+            log.append(('z3-5.1(api) ground-weakening', str(r), round(time.time() - t0, 3)))
+            if r == z3.sat:
+                return idx, 'candidate', 'z3-5.1(api) ground-weakening', time.time() - t0, model_dict(s.model()), log
+        except Exception as e:
+            log.append(('ground', 'error:' + str(e)[:100], 0))
     return idx, 'unknown', None, time.time() - t0, None, log
 
 
